@@ -1137,11 +1137,11 @@ SUBS = [
     # train_sa has the largest share: long 2-D refinement histories are the only way to reach a re-solve of a level vector on a
     # grid of unchanged shape but different coordinates (about 2-4 % of the bulk cases)
     Sub("uniform_direct", uniform_direct_strategy, run_uniform_direct, dict(quick=960, thorough=8000),
-        budget_s=dict(quick=15, thorough=130), fixed_cases=uniform_direct_fixed),
+        budget_s=dict(quick=20, thorough=130), fixed_cases=uniform_direct_fixed),
     Sub("dimwise_direct", dimwise_direct_strategy, run_dimwise_direct, dict(quick=1600, thorough=16000),
         budget_s=dict(quick=15, thorough=100), fixed_cases=dimwise_direct_fixed),
-    Sub("train", train_strategy, run_train, dict(quick=1600, thorough=16000),
-        budget_s=dict(quick=15, thorough=100), fixed_cases=train_fixed),
+    Sub("train", train_strategy, run_train, dict(quick=1280, thorough=12000),
+        budget_s=dict(quick=18, thorough=110), fixed_cases=train_fixed),
     Sub("train_sa", train_sa_strategy, run_train_sa, dict(quick=1600, thorough=10000),
         budget_s=dict(quick=30, thorough=140), fixed_cases=train_sa_fixed),
     Sub("opticom", opticom_strategy, run_opticom, dict(quick=800, thorough=6000),
